@@ -624,6 +624,23 @@ pub fn run(sc: &Scenario) -> Result<Trace, &'static str> {
         // after the first tick, and nothing about the loop may depend on it
         let (stuck_tx, _stuck_rx) = mpsc::channel::<String>(1);
         hub.subscribe("stats", stuck_tx).await;
+        // the same for the OTHER topic of the hub: a suspended `priority.window` client, and the priority sidecar's
+        // publishes next to the loop (one keyframe hint every 700 ms of virtual time, from a task of its own - what
+        // `priority_listener` does per accepted datagram).  A publish that waits for this client holds the hub's
+        // mutex, and the loop's own `stats` publish then never returns
+        let (stuck2_tx, _stuck2_rx) = mpsc::channel::<String>(1);
+        hub.subscribe("priority.window", stuck2_tx).await;
+        {
+            let hub = hub.clone();
+            tokio::spawn(async move {
+                let mut k = 0u64;
+                loop {
+                    tokio::time::sleep(Duration::from_millis(700)).await;
+                    hub.publish("priority.window", serde_json::json!({"at_ms": k, "window_ms": 100, "deadline_ms": k + 100})).await;
+                    k += 1;
+                }
+            });
+        }
         let binder: Arc<dyn UplinkBinder> = Arc::new(SourceIpBinder);
         let file = path2.to_string_lossy().into_owned();
         let config = DynamicConfig::new();
